@@ -947,3 +947,51 @@ def compare_index_exprs(a, b, samples=None):
         if tried > 6000:
             break
     return "unknown", "equal on %d sampled values, not proved equal" % tried
+
+
+def linexpr_from_repr(s):
+    """The LinExpr whose repr is `s` (inverse of LinExpr.__repr__ for the value-numbered expressions the interpreter builds)."""
+    def build(t):
+        if t[0] == "sum":
+            d = {}
+            for c, n in t[1]:
+                nm = name(n)
+                d[nm] = d.get(nm, 0) + c
+            return LinExpr(d, t[2])
+        raise ValueError("not a sum")
+
+    def name(n):
+        if n[0] == "atom":
+            return n[1]
+        return "%s[%s]" % (n[1], ",".join(repr(build(a)) for a in n[2]))
+    return build(_parse_linexpr(s))
+
+
+def split_product(sym, factor):
+    """X when the symbolic value is exactly mul[X, factor] (either order), else None"""
+    sym = LinExpr(sym)
+    if len(sym.t) != 1 or sym.c != 0 or sym.t[0][1] != 1 or not sym.t[0][0].startswith("mul["):
+        return None
+    t = _parse_linexpr(sym.t[0][0])
+    node = t[1][0][1]
+    if node[0] != "op" or node[1] != "mul" or len(node[2]) != 2:
+        return None
+    args = [linexpr_from_repr_tree(a) for a in node[2]]
+    f = LinExpr(factor)
+    if args[1] == f:
+        return args[0]
+    if args[0] == f:
+        return args[1]
+    return None
+
+
+def linexpr_from_repr_tree(t):
+    def name(n):
+        if n[0] == "atom":
+            return n[1]
+        return "%s[%s]" % (n[1], ",".join(repr(linexpr_from_repr_tree(a)) for a in n[2]))
+    d = {}
+    for c, n in t[1]:
+        nm = name(n)
+        d[nm] = d.get(nm, 0) + c
+    return LinExpr(d, t[2])
